@@ -76,6 +76,17 @@ BadCall(kind, c) ==
           /\ Act([op |-> "badcall", kind |-> kind, catches |-> c])
      ELSE Propagate("Exception", "rejected", [op |-> "badcall", kind |-> kind, catches |-> c])
 
+\* ---- construction of a jaxtyped dataclass D(n=k, x=zeros(k)): __init__ is the decorated function; its context
+\* lives for the construction only.  An ill-typed construction raises like an ill-typed call.
+MakeDC(k) ==
+  /\ CanStep
+  /\ UNCHANGED <<stack, frames, gens>> /\ obs' = Obs("constructed") /\ Act([op |-> "makedc", k |-> k])
+BadDC(c) ==
+  /\ CanStep
+  /\ IF c \in {"exc", "base"}
+     THEN /\ UNCHANGED <<stack, frames, gens>> /\ obs' = Obs("rejected-caught") /\ Act([op |-> "baddc", catches |-> c])
+     ELSE Propagate("Exception", "rejected", [op |-> "baddc", catches |-> c])
+
 EnterCtx ==
   /\ CanStep /\ Len(frames) < MaxFrames
   /\ stack' = Append(stack, Ctx(0, 0))
@@ -125,6 +136,7 @@ GenNext ==
 Next == \/ \E kind \in Kinds \ {"ctx"}, c \in Catches, k \in Sizes : Call(kind, c, k)
         \/ \E kind \in {"new", "old"}, c \in Catches : BadCall(kind, c)
         \/ EnterCtx \/ Return
+        \/ (\E k \in Sizes : MakeDC(k)) \/ (\E c \in Catches : BadDC(c))
         \/ \E k \in Sizes : Check(k) \/ ArgCheck(k)
         \/ \E cls \in {"Exception", "BaseException"} : Raise(cls)
         \/ \E kind \in {"new", "none"}, k \in Sizes : MakeGen(kind, k)
